@@ -12,7 +12,7 @@ PID = "C18"
 LEAN_MODS = ["SwcVerif.Props.C18", "SwcVerif.Props.C05"]
 THEOREMS = [
     "C18.dsu_refines_partition", "C18.runOps_cons", "C18.invalid_rejected", "C18.hasCyclic_spec", "C18.isBifurcate_correct",
-    "C18.jumpPass_stop", "C18.getDsu_fixpoint", "C18.getDsu_sorted_forest", "Dsu.jumpLoop_forest", "C18.getDsu_forest", "C18.forest_single_label_iff", "Dsu.jumpLoop_conn", "C18.getDsu_labels_are_components", "C18.repair_somas", "C18.repair_nearest_partial",
+    "C18.jumpPass_stop", "C18.getDsu_fixpoint", "C18.getDsu_sorted_forest", "Dsu.jumpLoop_forest", "C18.getDsu_forest", "C18.forest_single_label_iff", "Dsu.jumpLoop_conn", "C18.getDsu_labels_are_components", "C18.repair_somas", "C18.repair_nearest_partial", "Dsu.linkLoop_inv", "C18.repair_nearest_tree", "Dsu.cycle_strict", "Dsu.jumpLoop_terminates", "C18.getDsu_total", "C18.isSingleRoot_total",
     "C05.isSorted_iff",
 ]
 TRUSTED = ["hand-written models Model/Dsu.lean of DisjointSetUnion, has_cyclic, is_bifurcate, get_dsu / is_single_root, mark_roots_as_somas_, "
@@ -400,7 +400,6 @@ TECHNIQUE = ("Lean 4 theorems: the union-find model (path compression + union by
 LEVEL_TEXT = ("Kernel-checked for every history of unions and queries on n elements: is_same_set answers true exactly when the two elements are connected "
               "by the unions so far. Kernel-checked characterisations of has_cyclic (first row that joins two already connected nodes), is_bifurcate, "
               "is_sorted, of the pointer-jumping labelling (on EVERY forest, in any numbering, the loop stops within the modelled pass budget at the labelling 'root of my tree', so all labels are "
-              "equal exactly when there is one root; on ANY table, cycles included, whenever the loop returns two rows carry the same label exactly when they are weakly connected), and of the two root repairs (single root = first root, other rows untouched). "
+              "equal exactly when there is one root; on ANY table whose parents name rows, cycles included, the loop stops within the modelled pass budget — the sum of orbit sizes drops in every pass that changes anything — and two rows carry the same label exactly when they are weakly connected, so is_single_root answers 'one weak component'), and of the two root repairs (single root = first root, other rows untouched; the nearest-root repair of ANY forest, for any distances, returns an acyclic single-rooted table — each root is linked below a row of another component). "
               "The models are compared with the code on every parent table with at most 5 nodes and on random larger ones.")
-LEVEL_NOTE = ("Trusted: Lean kernel; hand-written models tied by exhaustive small-table and random correspondence; TERMINATION of pointer jumping on tables with cycles "
-              "(its result is proved right whenever it returns) and acyclicity of the nearest-root repair are observed (oracle), not proved (partial).")
+LEVEL_NOTE = ("Trusted: Lean kernel; hand-written models tied by exhaustive small-table and random correspondence; the total-correctness theorems of pointer jumping and the tree theorem of the nearest-root repair are stated for row-numbered ids (0..n-1), other numberings through the correspondence.")
